@@ -184,7 +184,7 @@ pub fn ty_text(t: &Ty, top: &str) -> String {
         Ty::Null => "NULL".into(),
         Ty::Octets => "OCTET STRING".into(),
         Ty::Utf8 => "UTF8String".into(),
-        Ty::Enum => "ENUMERATED { a, b }".into(),
+        Ty::Enum => "ENUMERATED { a, b-c }".into(),
         Ty::Ref => "T".into(),
         Ty::SelfRef => top.into(),
         Ty::Named(n) => n.clone(),
@@ -387,7 +387,9 @@ impl<'a> Cmp<'a> {
             Ty::Enum => match &it {
                 Item::Enum { variants, attrs, .. } => {
                     let names: Vec<&str> = variants.iter().map(|v| v.name.as_str()).collect();
-                    if (names != ["a", "b"] || !attrs.rasn.has("enumerated")) && self.check_shape {
+                    // the hyphenated enumeral keeps its ASN.1 spelling in an identifier annotation
+                    let ident_ok = variants.get(1).map_or(false, |v| v.attrs.rasn.get("identifier").map(|s| s.trim_matches('"').to_string()) == Some("b-c".to_string()));
+                    if (names != ["a", "b_c"] || !ident_ok || !attrs.rasn.has("enumerated")) && self.check_shape {
                         self.d(format!("{}|ctx={ctx}|comp=anon-ENUMERATED|kind=members", self.prefix), format!("enum {name}: {names:?}"));
                     }
                     if self.check_ext && attrs.non_exhaustive != self.implied {
